@@ -3,14 +3,14 @@ import json
 import os
 import vlib
 
-PROPS = ['Rangers.Props.C07', 'Rangers.Props.C07Rlp', 'Rangers.Props.C07Conv', 'Rangers.Props.C07Secp', 'Rangers.Props.C07Addr', 'Rangers.Props.C07Fork', 'Rangers.Props.C07Oracle', 'Rangers.Props.C07Facts', 'Rangers.Props.C07Admit']
+PROPS = ['Rangers.Props.C07', 'Rangers.Props.C07Rlp', 'Rangers.Props.C07Conv', 'Rangers.Props.C07Secp', 'Rangers.Props.C07Addr', 'Rangers.Props.C07Fork', 'Rangers.Props.C07Oracle', 'Rangers.Props.C07Unsigned', 'Rangers.Props.C07Facts', 'Rangers.Props.C07Admit']
 DRIVERS = ['C07']
 META = dict(
     level='proof',
     technique='Lean 4 theorems about an executable model of VerifyTransaction (crypto primitives as parameters) '
               '+ differential correspondence against the real TxPool.VerifyTransaction / eth_tx code with crypto oracle fields',
     level_text='proof',
-    level_note='70 Lean theorems about the executable model of VerifyTransaction that the driver runs; crypto '
+    level_note='77 Lean theorems about the executable model of VerifyTransaction that the driver runs; crypto '
                'primitives are parameters (soundness ends in explicit collision / second-signature witnesses); '
                'two clauses are false of the code and proved partial with counterexamples (unprotected v=27/28 '
                'payloads, recovery-id alias of Sign) and recorded as known findings; one defect fixed '
@@ -76,7 +76,7 @@ def correspond(ctx):
     gr = st.get('generator_results') or {}
     for k, n in gr.items():
         tag, _, res = k.partition('/')
-        honest = ('honest' in tag) and not tag.startswith('conv')
+        honest = (('honest' in tag) or tag.endswith('-inforce')) and not tag.startswith('conv')
         if honest and res != 'ok':
             c['ok'] = False
             c.setdefault('errors', []).append('honest generator %s answered %s (%d times) on both sides' % (tag, res, n))
